@@ -12,12 +12,15 @@ Protocol (one op per line; the first line of a case is `cfg`):
                                                           renew(), renew(reset_errors=r, amount=n), trigger_apoptosis(reason="x")
   set thr n | set allow 0|1 | set life q|none | set idle q|none    a public configuration attribute is re-assigned on the live
                                                           lifecycle (search/correspondence only: outside the quantifier)
+  many n <op>                                            the op (err, hb, tick c, tickd, timeouts, start, renew n r, renewd) n times
+                                                          (1..3000), only the last observation is shown: fills the event log to
+                                                          its capacity
   cb 0|1|2                                               callbacks of the current lifecycle from now on: return / on_phase_change
                                                           raises / on_senescence raises (each after recording the event);
                                                           a call ended by that exception shows ret `!`  (outside the property's
                                                           assumption "callbacks return": model stepCb + oracle clauses below)
 Observation after each op:
-  ret phase length errors ops renewals reason age [callback events] lockTrace is_operational is_active time_remaining ops_remaining
+  ret phase length errors ops renewals reason age [callback events] lockTrace is_operational is_active time_remaining ops_remaining events_count
 `hang` when the call never returns (afterwards the object is abandoned: `dead`).
 """
 from __future__ import annotations
@@ -80,6 +83,9 @@ class RecLock:
         self.release()
 
 
+MANY_OK = ("err", "hb", "tick", "tickd", "timeouts", "start", "renew", "renewd")
+
+
 class _Boom(Exception):
     """what a raising callback of the harness raises"""
 
@@ -102,7 +108,7 @@ class C09(Prop):
         "tick:senescent", "tick:senescent-depleted", "err:threshold", "err:threshold-noop", "err:rate", "err:rate-noop",
         "err:ok", "hb", "timeouts:inactive", "timeouts:lifetime", "timeouts:idle", "timeouts:ok", "renew:disallowed",
         "renew:terminated", "renew:recover", "renew:extend", "apo:terminated", "apo:go", "term", "reset", "adv",
-        "new", "use:old", "use:fresh", "set", "cb", "cb:raised"]
+        "new", "use:old", "use:fresh", "set", "cb", "cb:raised", "many"]
     assumptions = [
         "tick cost and renew amount are natural numbers (a negative cost/amount is outside the property's quantifier)",
         "on_phase_change / on_senescence callbacks return (callbacks that RAISE are explored too: model stepCb, theorem "
@@ -187,9 +193,9 @@ class C09(Prop):
         for v, unit in ((l, LIFE_UNIT), (i, IDLE_UNIT)):
             if v not in ("none", "0"):
                 lims.append(int(v) * unit)
-        prof = rng.choice(["mixed", "mixed", "long", "errors", "time", "early", "resets", "multi", "multi", "reconf", "cbraise"])
+        prof = rng.choice(["mixed", "mixed", "long", "errors", "time", "early", "resets", "multi", "multi", "reconf", "cbraise", "biglog"])
         w = {"start": 2, "tick": 8, "err": 3, "hb": 1, "timeouts": 3, "renew": 3, "apo": 1, "term": 1, "rst": 1, "adv": 3,
-             "use": 0, "new": 0, "set": 0.4, "cb": 0.15}
+             "use": 0, "new": 0, "set": 0.4, "cb": 0.15, "many": 0.05}
         if prof == "long":
             w.update(tick=16, apo=0.2, term=0.2, rst=0.3)
         elif prof == "errors":
@@ -201,6 +207,9 @@ class C09(Prop):
         elif prof == "resets":
             # several resets on one lifecycle with activity in between: each epoch is judged on its own counts
             w.update(rst=5, tick=10, err=6, renew=2, start=2, apo=0.5, term=0.5, timeouts=1, adv=1, new=1, use=1)
+        elif prof == "biglog":
+            # enough calls to fill the event log to its capacity and beyond (`many n op`)
+            w.update(many=2.5, err=3, tick=5, renew=3, rst=1.5, start=2)
         elif prof == "cbraise":
             # callbacks that raise (outside the assumption "callbacks return"): the call must still leave a legal state,
             # release the lock, and the next calls must work
@@ -238,6 +247,10 @@ class C09(Prop):
                 lines.append("apo" if rng.random() > 0.3 else "apor")
             elif op == "cb":
                 lines.append(f"cb {rng.choice([1, 1, 2, 0])}")
+            elif op == "many":
+                n_ = rng.choice([2, 3, 10, 50, 100, 300, 500, 998, 999, 1000, 1001, 1200])
+                lines.append(f"many {n_} " + rng.choice(["err", "err", "err", "hb", "tick 0", "tick 1", "timeouts", "start",
+                                                        "renew 1 0", "renew none 1", "renewd", "tickd"]))
             elif op == "set":
                 what = rng.choice(["thr", "thr", "allow", "allow", "life", "idle"])
                 if what == "thr":
@@ -279,7 +292,8 @@ class C09(Prop):
 
     def generate(self, rng, tier, n):
         bad = ["tick", "tick -1", "tick x", "renew", "renew -3 1", "adv -5", "frobnicate", "renew 1", "tick 1 2", "use",
-               "use x", "new 1", "use -1", "set", "set thr", "set foo 1", "set allow x", "tickk", "renewk 1", "cb", "cb 3", "cb x"]
+               "use x", "new 1", "use -1", "set", "set thr", "set foo 1", "set allow x", "tickk", "renewk 1", "cb", "cb 3", "cb x", "many 3 foo", "many 0 err", "many x err", "many 5000 err",
+               "many 3 cfg 1 1 1 none none", "many 2 use 1"]
         for k in range(n):
             c = self._rand_case(rng)
             if k % 40 == 39:       # small malformed stream: both sides must answer bad-op and carry on
@@ -357,7 +371,8 @@ class C09(Prop):
         tr = st.time_remaining
         b = lambda v: "1" if v is True else "0" if v is False else "?"
         return " ".join([b(obj.is_operational()), b(obj.is_active()),
-                         "-" if tr is None else str(tr // self.T.timedelta(microseconds=1)), str(st.operations_remaining)])
+                         "-" if tr is None else str(tr // self.T.timedelta(microseconds=1)), str(st.operations_remaining),
+                         str(obj.get_statistics()["events_count"])])
 
     def _obs2(self, obj):
         return self._observe(obj), self._accessors(obj)
@@ -383,6 +398,11 @@ class C09(Prop):
 
         for line in case["lines"]:
             t = line.split()
+            # `many n <op>`: the op n times inside ONE supervised call, only the last observation is kept (reaches the
+            # capacity of the event log)
+            reps = 1
+            if (len(t) >= 3 and t[0] == "many" and _num(t[1]) is not None and 1 <= int(t[1]) <= 3000 and t[2] in MANY_OK):
+                reps, t = int(t[1]), t[2:]
             if t and t[0] == "cfg" and len(t) == 6:
                 slots.clear()
                 cur, cfg0 = 0, t
@@ -459,6 +479,13 @@ class C09(Prop):
             del lock.events[:]
             # the call and the read-back of the observable state run in ONE watchdog-supervised thread
             def call():
+                for _ in range(reps - 1):
+                    try:
+                        fn()
+                    except _Boom:
+                        pass
+                    del evs[:]
+                    del lock.events[:]
                 try:
                     r_ = fn()
                 except _Boom:             # the harness's own callback raised: the call ended by that exception
@@ -576,6 +603,29 @@ class C09(Prop):
                     V("dead_never_ticks", f"is_operational() is False exactly when APOPTOTIC/TERMINATED [phase {ph}]", f[10], i)
                 if f[13] != f[2]:
                     V("length_in_bounds", f"operations_remaining == remaining length {ln}", f[13], i)
+            if op == "many":
+                # n repetitions, only the last observation: the counters of this lifecycle are kept up to date, the bounds and
+                # accessor clauses are judged on the final state, the per-call clauses are not (correspondence covers the rest)
+                n_, sub = int(t[1]), t[2]
+                if sub == "err":
+                    r["errs"] += n_
+                if sub in ("tick", "tickd") and phase not in ("P", "T"):
+                    r["ops"] += n_
+                    r["ops_lo"] += 0 if ret == "!" else n_
+                if sub in ("renew", "renewd") and ret in ("1", "!"):
+                    r["unit_true"] = 0
+                    if sub == "renewd" or (len(t) >= 5 and t[4] in ("1", "true", "True")):
+                        r["errs"] = 0
+                if not (0 <= ln <= maxo):
+                    V("length_in_bounds", f"0 <= length <= {maxo}", f"{ln} after {line!r}", i)
+                if phase == "T" and ph != "T":
+                    V("terminated_absorbing", "T", f"{ph} after {line!r}", i)
+                if ph == "A" and r["start_at"] is None:
+                    r["start_at"] = now
+                if sub != "timeouts":
+                    r["last_touch"] = now
+                r["phase"], r["length"] = ph, ln
+                continue
             if op == "cb":
                 if ph != phase or ln != length:
                     V("legal_transitions", f"phase {phase}, length {length}: no method was called", f"{ph}, {ln} at {line!r}", i)
